@@ -23,7 +23,7 @@ RULE = ("case = (runtime_vpmap spec: none / flat / hwloc / rr:n:p:c / file:<gene
         "and a non-default core count or binding parameter; distinct = distinct case values")
 
 # defect classes excluded from generation by construction until decided (each has a replay under corpus/C40/regress)
-DEFAULT_SKIPS = {"C40_SKIP_RR": "1", "C40_SKIP_FILE": "1", "C40_SKIP_HWLOC_TOTAL": "1"}
+DEFAULT_SKIPS = {}     # rr:, file: and the hwloc thread total were repaired in /repo (C40-F1..F3): nothing is excluded any more
 
 
 def _build():
